@@ -11,6 +11,7 @@ returned.  Implicit rejections through arithmetic exceptions and the
 from __future__ import annotations
 
 import ast
+import re
 from typing import Dict, List, Optional, Set, Tuple
 
 from ..astutil import assigned_names, names_in, parents, self_attrs_in, txt
@@ -352,6 +353,8 @@ def check_guard(ctx, res, ob: GuardOb, rule="R15.1", prop_res=None, _fi=None, _d
         e = g.nodes[nid].ast
         visited: List[ast.AST] = []
         deps = cond_deps(ctx, fi, e, visited)
+        # locals of an inlined private helper carry a hygiene prefix (`_inl7_point`): the name the helper's author chose is `point`
+        deps = set(deps) | {re.sub(r"^(_inl\d+_)+", "", d_) for d_ in deps if isinstance(d_, str) and d_.startswith("_inl")}
         if ob.inputs_any and not (deps & ob.inputs_any):
             rejected_detail.append("`%s`: does not depend on %s" % (txt(e)[:50], sorted(ob.inputs_any)))
             continue
